@@ -105,7 +105,7 @@ class C13(BaseCheck):
   EXHAUSTIVE = {'thorough': True}
 
   def n_cases(self, tier):
-    return 96 + 400 if tier == 'quick' else NCHUNKS + 12000
+    return 96 + 400 if tier == 'quick' else NCHUNKS + 40000
 
   def setup(self, env, tier):
     from scales.thriftmux.sink import SocketTransportSink
